@@ -30,11 +30,26 @@ pub enum Op {
     DrawImageAt(f32, f32, Img, DrawOptions),
     /// width, height, x, y
     DrawImageWithSizeAt(f32, f32, f32, f32, Img, DrawOptions),
+    /// draw_text, or draw_glyphs with hand-placed glyphs (only generated when fonts are available)
+    Text(TextSpec, SrcSpec, DrawOptions),
+    /// not a call: from here on the scene monitor magnifies the real target's user space by 2^e (first op of
+    /// a scaled scene; a no-op when applied to a plain target)
+    UserScale(i32),
+}
+
+#[derive(Clone, Debug)]
+pub struct TextSpec {
+    pub font: usize,
+    pub size: f32,
+    pub text: String,
+    pub x: f32,
+    pub y: f32,
+    pub glyphs: bool,
 }
 
 impl Op {
     pub fn is_draw(&self) -> bool {
-        !matches!(self, Op::SetTransform(_) | Op::PushClipRect(..) | Op::PushClip(_) | Op::PopClip | Op::PushLayer(..) | Op::PopLayer)
+        !matches!(self, Op::SetTransform(_) | Op::PushClipRect(..) | Op::PushClip(_) | Op::PopClip | Op::PushLayer(..) | Op::PopLayer | Op::UserScale(_))
     }
 
     pub fn name(&self) -> &'static str {
@@ -52,6 +67,14 @@ impl Op {
             Op::Mask(..) => "mask",
             Op::DrawImageAt(..) => "draw_image_at",
             Op::DrawImageWithSizeAt(..) => "draw_image_with_size_at",
+            Op::UserScale(_) => "user_scale",
+            Op::Text(t, ..) => {
+                if t.glyphs {
+                    "draw_glyphs"
+                } else {
+                    "draw_text"
+                }
+            }
         }
     }
 
@@ -79,6 +102,8 @@ impl Op {
                 let image = Image { width: img.w, height: img.h, data: &img.data[..] };
                 dt.draw_image_with_size_at(*w, *h, *x, *y, &image, o)
             }
+            Op::Text(t, s, o) => s.with(|src| crate::text::draw(dt, t.font, t.size, &t.text, t.x, t.y, t.glyphs, src, o)),
+            Op::UserScale(_) => {}
         }
     }
 
@@ -137,6 +162,14 @@ impl Op {
                 o.set("data", pixels_json(&img.data));
                 o.set("options", optj(d));
             }
+            Op::UserScale(e) => {
+                o.set("exponent", J::Int(*e as i64));
+            }
+            Op::Text(t, s, d) => {
+                o.set("text", J::s(&format!("{:?} font #{} size {} at {},{}", t.text, t.font, fmt_f(t.size), fmt_f(t.x), fmt_f(t.y))));
+                o.set("source", s.desc());
+                o.set("options", optj(d));
+            }
         }
         o
     }
@@ -144,4 +177,70 @@ impl Op {
 
 pub fn ops_json(ops: &[Op]) -> J {
     J::Arr(ops.iter().map(|o| o.desc()).collect())
+}
+
+/// a short piece of text on or near the surface (only meaningful when `crate::text::available() > 0`)
+pub fn random_text(rng: &mut crate::prng::Rng, w: i32, h: i32) -> TextSpec {
+    let n = rng.int(1, 3) as usize;
+    let alphabet: Vec<char> = "AgW.il#o@Q8".chars().collect();
+    let text: String = (0..n).map(|_| *rng.pick(&alphabet[..])).collect();
+    let size = if rng.chance(0.3) { rng.int(6, 40) as f32 } else { rng.range(5., (h as f64 * 1.5).max(8.)) as f32 };
+    TextSpec {
+        font: rng.below(3) as usize,
+        size,
+        text,
+        x: if rng.chance(0.5) { rng.int(-3, w as i64) as f32 } else { rng.range(-4., w as f64) as f32 },
+        y: if rng.chance(0.5) { rng.int(0, h as i64 + 4) as f32 } else { rng.range(0., h as f64 + 4.) as f32 },
+        glyphs: rng.chance(0.3),
+    }
+}
+
+/// the same source with its user-space geometry multiplied by `f` (a power of two: exact in f32)
+pub fn scale_source(s: &SrcSpec, f: f32) -> SrcSpec {
+    let m = |p: &(f32, f32)| (p.0 * f, p.1 * f);
+    match s {
+        SrcSpec::Solid(p) => SrcSpec::Solid(*p),
+        // user space shrinks by f, so the way into image space first undoes that
+        SrcSpec::Image { w, h, data, repeat, bilinear, transform } => SrcSpec::Image { w: *w, h: *h, data: data.clone(), repeat: *repeat, bilinear: *bilinear, transform: Transform::scale(1. / f, 1. / f).then(transform) },
+        SrcSpec::Linear { stops, start, end, spread } => SrcSpec::Linear { stops: stops.clone(), start: m(start), end: m(end), spread: *spread },
+        SrcSpec::Radial { stops, center, radius, spread } => SrcSpec::Radial { stops: stops.clone(), center: m(center), radius: radius * f, spread: *spread },
+        SrcSpec::TwoCircle { stops, c1, r1, c2, r2, spread } => SrcSpec::TwoCircle { stops: stops.clone(), c1: m(c1), r1: r1 * f, c2: m(c2), r2: r2 * f, spread: *spread },
+        SrcSpec::Sweep { stops, center, start_angle, end_angle, spread } => SrcSpec::Sweep { stops: stops.clone(), center: m(center), start_angle: *start_angle, end_angle: *end_angle, spread: *spread },
+    }
+}
+
+/// The call that draws the same picture when user space is magnified by `k` (a power of two): user-space
+/// geometry, widths, dash lengths and source geometry are divided by k and every transform is preceded by
+/// scale(k). Device-space calls (clip rectangles, mask position, clear, layers) stay as they are. None for
+/// calls that have no such twin (text).
+pub fn scaled_twin(op: &Op, k: f32) -> Option<Op> {
+    let f = 1. / k;
+    let sp = |p: &Path| p.clone().transform(&Transform::scale(f, f));
+    Some(match op {
+        Op::SetTransform(t) => Op::SetTransform(Transform::scale(k, k).then(t)),
+        Op::PushClip(p) => Op::PushClip(sp(p)),
+        Op::Fill(p, s, o) => Op::Fill(sp(p), scale_source(s, f), *o),
+        Op::Stroke(p, s, st, o) => {
+            let st2 = StrokeStyle { width: st.width * f, cap: st.cap, join: st.join, miter_limit: st.miter_limit, dash_array: st.dash_array.iter().map(|d| d * f).collect(), dash_offset: st.dash_offset * f };
+            Op::Stroke(sp(p), scale_source(s, f), st2, *o)
+        }
+        Op::FillRect(x, y, w, h, s, o) => Op::FillRect(x * f, y * f, w * f, h * f, scale_source(s, f), *o),
+        Op::Mask(s, x, y, mw, mh, d) => Op::Mask(scale_source(s, f), *x, *y, *mw, *mh, d.clone()),
+        Op::DrawImageWithSizeAt(w, h, x, y, img, o) => Op::DrawImageWithSizeAt(w * f, h * f, x * f, y * f, img.clone(), *o),
+        // draw_image_at draws the image at its natural size in user space
+        Op::DrawImageAt(x, y, img, o) => Op::DrawImageWithSizeAt(img.w as f32 * f, img.h as f32 * f, x * f, y * f, img.clone(), *o),
+        Op::Text(..) => return None,
+        Op::PushClipRect(..) | Op::PopClip | Op::PushLayer(..) | Op::PopLayer | Op::Clear(_) | Op::UserScale(_) => op.clone(),
+    })
+}
+
+/// sources whose shading is invariant under the power-of-two scale family: linear and radial gradients are
+/// normalised to a unit space by raqote, images carry their own transform; two-circle and sweep gradients are
+/// evaluated in user units in 16.16 fixed point and change with the scale (and leave its range when magnified)
+pub fn scale_invariant_source(s: &SrcSpec) -> SrcSpec {
+    match s {
+        SrcSpec::TwoCircle { stops, c1, r1, spread, .. } => SrcSpec::Radial { stops: stops.clone(), center: *c1, radius: r1.max(0.5), spread: *spread },
+        SrcSpec::Sweep { stops, center, spread, .. } => SrcSpec::Linear { stops: stops.clone(), start: *center, end: (center.0 + 3., center.1 + 2.), spread: *spread },
+        other => other.clone(),
+    }
 }
